@@ -131,9 +131,11 @@ def via_route(ctx, sc, route):
         for r in sc.refs:
             b.store_ref(to_real(r, via='builder'))
         c = b.end_cell()
+        if len(sc.bits) < 1000 and len(sc.bits) % 2:
+            b.store_uint(5, 3)          # (the first write after end_cell goes through another store family every other length)
         if len(sc.refs) < 4:
             b.store_ref(Builder().store_uint(2, 2).end_cell())
-        if len(sc.bits) < 1023:
+        if len(sc.bits) < 1000:
             b.store_bit(1)
         b.end_cell()
         return c
